@@ -84,11 +84,20 @@ let after_content = bytes_of_string "AFTER"
 let () =
   iter_lines (fun line ->
       match split_tab line with
+      | [id; config; "two"; _; _; _; _; obs] ->
+        (* two Store values on one directory: staging names are per-write random names, so the writers of the
+           model never share a staging file ([inv_own]); the implementation must show the same *)
+        let cls o = fst (split_once ':' o) in
+        let verdict = if obs = "two_ok" then "ok"
+          else "fail:" ^ String.concat "," (List.sort_uniq compare (List.map cls (String.split_on_char ',' obs))) in
+        Printf.printf "%s\ttwo_ok\t%s\n" id verdict
       | [id; config; "conc"; _; _; _; _; obs] ->
         let verdict = if obs = "readers_ok" then "ok" else "fail:" ^ fst (split_once ':' obs) in
         Printf.printf "%s\treaders_ok\t%s\n" id verdict
       | [id; config; pre; op; keyhex; chunkhex; fault; obs] ->
         let cfg = cfg_of config in
+        (* putc<n>: Put under a context cancelled after PutStream's check: the same operation to the model *)
+        let op = if String.length op > 4 && String.sub op 0 4 = "putc" then "put" else op in
         let key = bytes_of_hex keyhex in
         let chunks =
           if chunkhex = "" then [] else List.map bytes_of_hex (String.split_on_char ',' chunkhex) in
